@@ -1258,7 +1258,9 @@ class Gen:
             field = rng.choice([b'h2=":443"', 'notbytes'])
             which = rng.randrange(3)
             if which == 0:
-                self.call(ep, 'advertise_alternative_service', field=field, origin=b'o', sid=sid)
+                # both given (also with values that are falsy): one of the two ways to advertise must be chosen
+                self.call(ep, 'advertise_alternative_service', field=field, origin=rng.choice([b'o', b'', b'example.com']),
+                          sid=rng.choice([sid, sid, 0]))
             elif which == 1:
                 if not fsm_ok and not (st is not None and not st.mine and st.state in ('open', 'hcR') and st.sent in (NONE, INFO)):
                     return
